@@ -18,6 +18,7 @@ import GolibsVerif.Theorems.C02
 import GolibsVerif.Theorems.C02IP
 import GolibsVerif.Theorems.C03
 import GolibsVerif.Theorems.C04
+import GolibsVerif.Theorems.C05
 import GolibsVerif.Theorems.C06
 import GolibsVerif.Theorems.C12
 import GolibsVerif.Theorems.C13
@@ -43,12 +44,12 @@ def covered : List String := [
   "netutil.CloneIPs",
   "stringutil.ContainsFold", "stringutil.SplitTrimmed",
   "urlutil.URL.UnmarshalJSON",
-  "netutil.IPFromReversedAddr", "netutil.IPToReversedAddr"]
+  "netutil.IPFromReversedAddr", "netutil.IPToReversedAddr",
+  "netutil.ExtractReversedAddr", "netutil.PrefixFromReversedAddr"]
 
 /-- modelled and tied by the correspondence check; totality theorem not yet in this file -/
 def pending : List String := [
   "hostsfile.Parse", "hostsfile.Record.UnmarshalText",
-  "netutil.ExtractReversedAddr", "netutil.PrefixFromReversedAddr",
   "netutil.IPNetToPrefix", "netutil.IPNetToPrefixNoMapped"]
 
 def entryOK (e : Entry) : Bool :=
@@ -120,6 +121,15 @@ theorem arpa_codec_never_panics (toASCII : Bytes → Option Bytes) (s ip : Bytes
   cases h : ipToReversedAddr ip with
   | ok v => exact ⟨v, rfl⟩
   | error e => exact absurd h (hne e)
+
+open GolibsVerif.Netutil in
+/-- `PrefixFromReversedAddr` never panics (any input, any `idna.ToASCII`); `ExtractReversedAddr`
+never panics provided `idna.ToASCII` keeps a leading dot (contract `hDot`; without it the
+model does reach an out-of-range index, see `Theorems/C05.lean`). -/
+theorem arpa_prefix_never_panics (toASCII : Bytes → Option Bytes)
+    (hDot : ∀ s t, toASCII s = some t → s.head? = some 46 → t.head? = some 46) (s : Bytes) :
+    (∃ r, prefixFromReversedAddr toASCII s = .ok r) ∧ (∃ r, extractReversedAddr toASCII s = .ok r) :=
+  ⟨C05.prefixFromReversedAddr_total toASCII s, C05.extractReversedAddr_total toASCII hDot s⟩
 
 theorem stringutil_never_panics (fold : Nat → Nat) (s sub : Bytes) :
     (∃ b, C13.containsFold fold s sub = .ok b) ∧
